@@ -1,7 +1,58 @@
-(* C01 - placeholder, replaced below *)
-From Coq Require Import List.
-From TL Require Import Model.Str Model.Table Proofs.Table_inv Proofs.Table_history.
-Theorem C01_history_inv ops : forall t, Inv t -> forallb (valid_op (size t)) ops = true ->
-  Inv (fold_left step ops t) /\ size (fold_left step ops t) = size t.
-Proof. exact (history_inv ops). Qed.
-Print Assumptions C01_history_inv.
+(* C01 - Feature table stays aligned with observations under any operation history.
+   Inv t : feature names distinct, dictionary indices 0..k-1 in insertion order, every observation carries exactly k values,
+           no virtual name is registered.   abs t : the ordered map name -> column read through the public accessor. *)
+From Coq Require Import List Ascii String Bool Arith ZArith QArith Lia.
+Import ListNotations.
+From TL Require Import Model.Str Model.Rpn Model.Table Model.Eval Model.Pipeline Model.History
+  Proofs.Table_inv Proofs.Table_remove Proofs.Table_set Proofs.Table_history Proofs.Table_xhistory
+  Proofs.Rpn_parse Proofs.Eval_sem Proofs.Eval_machine Proofs.Eval_top Proofs.Eval_operate.
+
+(* after ANY history of create / remove / "#DELETE" / addListToAF / update / bracket assignment / single-observation assignment
+   (raising calls included: they leave the track unchanged), the alignment invariant holds and the track keeps its size *)
+Theorem C01_history_invariant ops : forall t, Inv t -> forallb (xvalid (Table.size t)) ops = true ->
+  Inv (fold_left xstep ops t) /\ Table.size (fold_left xstep ops t) = Table.size t.
+Proof. exact (xhistory_inv ops). Qed.
+
+(* refinement: reading by name returns what the same history writes into a plain ordered map (last write wins, create on an
+   existing name is a no-op, delete removes exactly that name and nothing else) *)
+Theorem C01_history_refines ops : forall t, Inv t -> forallb (xvalid (Table.size t)) ops = true ->
+  abs (fold_left xstep ops t) = fold_left (xspec_step (Table.size t)) ops (abs t).
+Proof. exact (xhistory_refines ops). Qed.
+
+(* frame: coordinates and timestamps are untouched by every call that does not name a coordinate *)
+Theorem C01_history_frame ops : forall t, Inv t -> forallb (xvalid (Table.size t)) ops = true ->
+  forallb (fun o => negb (is_coord (xname o))) ops = true ->
+  let t' := fold_left xstep ops t in xs t' = xs t /\ ys t' = ys t /\ zs t' = zs t /\ ts t' = ts t.
+Proof. exact (xhistory_frame ops). Qed.
+
+(* single operations, as stated in the property *)
+Theorem C01_remove t n i t' : Inv t -> lookup (dico t) n = Some i -> remove_af t n = Ok t' ->
+  Inv t' /\ names t' = filter (keep n) (names t) /\ Table.size t' = Table.size t /\
+  xs t' = xs t /\ ys t' = ys t /\ zs t' = zs t /\ ts t' = ts t /\
+  get_af t' n = Err AFError /\ (forall m, m <> n -> get_af t' m = get_af t m).
+Proof. exact (remove_spec t n i t'). Qed.
+
+(* an algebraic expression without '=' : same abstract map, same coordinates, invariant kept, no temporary listed *)
+Theorem C01_expression_step e t d :
+  Inv t -> coords_ok t -> Table.size t <> 0%nat -> fresh_from t 0 -> has_af t out_name = false ->
+  (forall m, In m (names t) -> is_temp m = false) ->
+  wf e -> wfe t e -> (0 < minclass e)%nat -> clean (print e) = true -> sem t e = Ok d ->
+  exists t3 r, operate_str t (print e) = Ok (t3, r) /\ Inv t3 /\ abs t3 = abs t /\
+               xs t3 = xs t /\ ys t3 = ys t /\ zs t3 = zs t /\ ts t3 = ts t.
+Proof. exact (operate_abs e t d). Qed.
+
+Print Assumptions C01_history_invariant.
+Print Assumptions C01_history_refines.
+Print Assumptions C01_history_frame.
+Print Assumptions C01_remove.
+Print Assumptions C01_expression_step.
+
+(* non-vacuity: create a, create b, delete a, create a again, bracket-assign b, set one observation of a *)
+Definition mk2 : track := {| xs := [Some 0; Some 1]; ys := [Some 0; Some 0]; zs := [Some 0; Some 0]; ts := [Some 0; Some 1]; dico := []; feats := [[]; []] |}.
+Definition h_ex : list xop :=
+  [XCreate (s_ "a") (IScalar (Some 1)); XCreate (s_ "b") (IList [Some 2; Some 3]); XDelete (s_ "a"); XCreate (s_ "a") (IScalar (Some 7));
+   XSetItem (s_ "b") (IScalar (Some 5)); XSetObs (s_ "a") 1 (Some 9); XUpdate (s_ "zz") (IScalar (Some 0))].
+Example C01_nonvacuous :
+  forallb (xvalid (Table.size mk2)) h_ex = true /\
+  abs (fold_left xstep h_ex mk2) = [(s_ "b", [Some 5; Some 5]); (s_ "a", [Some 7; Some 9])].
+Proof. split; vm_compute; reflexivity. Qed.
